@@ -110,7 +110,21 @@ func (h *Hist) Do(thread, name string, arg interface{}, f func() (interface{}, e
 		defer func() {
 			if r := recover(); r != nil {
 				op.Panic = normPanic(r)
-				op.PanicAt = strings.Join(repoFrames(string(debug.Stack()), 3), " <- ")
+				fr := repoFrames(string(debug.Stack()), 3)
+				if strings.HasPrefix(op.Panic, "runaway recursion") {
+					// the innermost frame is wherever the depth check happened to fire: name the cycle instead
+					set := map[string]bool{}
+					for _, f := range repoFrames(string(debug.Stack()), 12) {
+						set[f] = true
+					}
+					fr = fr[:0]
+					for f := range set {
+						fr = append(fr, f)
+					}
+					sort.Strings(fr)
+					op.Name = "request"
+				}
+				op.PanicAt = strings.Join(fr, " <- ")
 			}
 		}()
 		op.Val, op.Err = f()
